@@ -22,6 +22,16 @@ def enc16 (v : Nat) : Bytes := [UInt8.ofNat (v / 256 % 256), UInt8.ofNat (v % 25
 def enc32 (v : Nat) : Bytes :=
   [UInt8.ofNat (v / 16777216 % 256), UInt8.ofNat (v / 65536 % 256), UInt8.ofNat (v / 256 % 256), UInt8.ofNat (v % 256)]
 
+/-! ### the buffer view
+
+  What the Go writers do with the pre-sized buffer `b` and the running offset: `writeAt b off bs` writes the octets
+  `bs` at `off` (`ErrSmallBuffer` unless they fit) and returns the new contents and the new offset.  The translated
+  writers of utils.go are EQUAL to `writeAt` of the model's encoders (`Lemmas/TranslatedEnc.lean`), and sequential
+  writes compose into ONE write of the concatenation (`writeAt_append`) — which is the justification of building
+  the output as a list and comparing its length with the capacity once. -/
+def writeAt (b : Bytes) (off : Nat) (bs : Bytes) : Res (Bytes × Nat) :=
+  if off + bs.length ≤ b.length then .ok (b.take off ++ bs ++ b.drop (off + bs.length), off + bs.length) else .err
+
 /-! ### NameScanner -/
 
 /-- Labels of a name as the scanner yields them, `none` when `scanner.Err() != nil`
